@@ -2,7 +2,8 @@
     weakened silently. *)
 From RsM Require Import Lib.MachInt Model.Cert Model.CertSpec Model.Case Model.CaseSpec
   Proofs.CaseFacts Proofs.CaseResponder Proofs.CaseInitiator Proofs.CaseHistory Proofs.CaseBinding
-  Proofs.CaseMonitor Proofs.CaseWitness Props.C01.
+  Proofs.CaseMonitor Proofs.CaseWitness Model.CaseDY Proofs.CaseDYFacts Proofs.CaseDYOutputs Proofs.CaseDYBinding
+  Proofs.CaseDYWitness Props.C01.
 Open Scope N_scope.
 
 Check (C01_responder_sound : forall st fr ms st' rs' out,
@@ -76,6 +77,227 @@ Check (C01_resume_binding_partial : forall a b fra fab peer m1' m2' sa sb,
     s_fab sa = r_fab ra /\ s_peer sa = r_peer ra /\ s_cats sa = r_cats ra /\
     s_fab sb = r_fab rb /\ s_peer sb = r_peer rb /\ s_cats sb = r_cats rb /\
     s_enc sa = s_dec sb /\ s_dec sa = s_enc sb).
+Check (C01_dy_secrecy :
+  forall (SN SK : list N) (K : knowledge),
+  (forall t : term, K t -> guarded SN SK t) -> forall t : term, derivable K t -> guarded SN SK t).
+Check (C01_dy_origin :
+  forall (SN SK : list N) (K : knowledge),
+  (forall t : term, K t -> guarded SN SK t) ->
+  forall t : term,
+  derivable K t ->
+  forall k n pt : term,
+  ~ guarded SN SK k -> sub (TAead k n pt) t -> exists t0 : term, K t0 /\ sub (TAead k n pt) t0).
+Check (C01_run_guarded :
+  forall (K0 : knowledge) (SK : list N) (ipk : N) (fa : fabric) (r : dy_run),
+  dy_world K0 SK ipk fa r ->
+  forall t : term, derivable (know5 K0 r) t -> guarded (secret_nonces ipk r) SK t).
+Check (C01_secrets_not_derivable :
+  forall (K0 : knowledge) (SK : list N) (ipk : N) (fa : fabric) (r : dy_run),
+  dy_world K0 SK ipk fa r ->
+  ~ derivable (know5 K0 r) (TNonce ipk) /\
+  ~ derivable (know5 K0 r) (TNonce (fr_eph (dr_fra r))) /\
+  ~ derivable (know5 K0 r) (TNonce (fr_eph (dr_frb r))) /\
+  (forall k : N, In k SK -> ~ derivable (know5 K0 r) (TKey k)) /\
+  (forall x y z : term, ~ derivable (know5 K0 r) (THkdf (TPair (TNonce ipk) x) y z))).
+Check (C01_tbe2_from_responder :
+  forall (K0 : knowledge) (SK : list N) (ipk : N) (fa : fabric) (r : dy_run),
+  dy_world K0 SK ipk fa r ->
+  forall (m2' : msg) (rr rpub sh pt : term),
+  msg_derivable (know1 K0 r) (dr_m1 r) ->
+  msg_derivable (know2 K0 r) m2' ->
+  get_req m2' 4 KBytes =
+  Ok
+    (TAead
+       (s2k (TNonce ipk) rr rpub
+          (h1 (msg_term (sigma1_of (dr_a r) (dr_fra r) (dr_fab r) (dr_peer r) fa))) sh)
+       (TNum NONCE_S2) pt) ->
+  exists (q : sigma1) (f : fabric),
+    parse_sigma1 (dr_m1 r) = Ok q /\
+    get_by_dest_id (n_fabrics (dr_b r)) (g1_random q) (g1_dest q) = Some f /\
+    ro_msgs (run_r1 r) = [build_sigma2 f (dr_frb r) (g1_pub q) (msg_term (dr_m1 r))] /\
+    get_req (build_sigma2 f (dr_frb r) (g1_pub q) (msg_term (dr_m1 r))) 4 KBytes =
+    Ok
+      (TAead
+         (s2k (TNonce ipk) rr rpub
+            (h1 (msg_term (sigma1_of (dr_a r) (dr_fra r) (dr_fab r) (dr_peer r) fa))) sh)
+         (TNum NONCE_S2) pt)).
+Check (C01_tbe3_from_initiator :
+  forall (K0 : knowledge) (SK : list N) (ipk : N) (fa : fabric) (r : dy_run),
+  dy_world K0 SK ipk fa r ->
+  forall (fb : fabric) (q : sigma1) (sh pt : term),
+  f_ipk fb = TNonce ipk ->
+  msg_derivable (know1 K0 r) (dr_m1 r) ->
+  msg_derivable (know2 K0 r) (dr_m2 r) ->
+  msg_derivable (know3 K0 r) (dr_m3 r) ->
+  get_req (dr_m3 r) 1 KBytes =
+  Ok
+    (TAead
+       (s3k (TNonce ipk)
+          (h12 (msg_term (dr_m1 r))
+             (msg_term (build_sigma2 fb (dr_frb r) (g1_pub q) (msg_term (dr_m1 r))))) sh)
+       (TNum NONCE_S3) pt) ->
+  exists (rr rpub : term) (noc : cert) (icac : option cert) (sig rid : term) 
+  (cats : list N),
+    io_msgs (run_i2 r) =
+    [build_sigma3 fa (TPub (TNonce (fr_eph (dr_fra r)))) rpub
+       (msg_term (sigma1_of (dr_a r) (dr_fra r) (dr_fab r) (dr_peer r) fa)) 
+       (msg_term (dr_m2 r)) (dh (TNonce (fr_eph (dr_fra r))) rpub)] /\
+    get_req (dr_m2 r) 1 KBytes = Ok rr /\
+    get_req (dr_m2 r) 3 KBytes = Ok rpub /\
+    get_req (dr_m2 r) 4 KBytes =
+    Ok
+      (TAead
+         (s2k (TNonce ipk) rr rpub
+            (h1 (msg_term (sigma1_of (dr_a r) (dr_fra r) (dr_fab r) (dr_peer r) fa)))
+            (dh (TNonce (fr_eph (dr_fra r))) rpub)) (TNum NONCE_S2) (tbe2_plain noc icac sig rid)) /\
+    case_valid (n_clock (dr_a r)) (f_fid fa) (f_root fa) noc icac /\
+    get_node_id noc = Some (dr_peer r) /\
+    cats_of noc = Ok cats /\
+    sig = TSig (TKey (pubkey noc)) (tbs noc icac rpub (TPub (TNonce (fr_eph (dr_fra r))))) /\
+    get_req
+      (build_sigma3 fa (TPub (TNonce (fr_eph (dr_fra r)))) rpub
+         (msg_term (sigma1_of (dr_a r) (dr_fra r) (dr_fab r) (dr_peer r) fa)) 
+         (msg_term (dr_m2 r)) (dh (TNonce (fr_eph (dr_fra r))) rpub)) 1 KBytes =
+    Ok
+      (TAead
+         (s3k (TNonce ipk)
+            (h12 (msg_term (dr_m1 r))
+               (msg_term (build_sigma2 fb (dr_frb r) (g1_pub q) (msg_term (dr_m1 r))))) sh)
+         (TNum NONCE_S3) pt)).
+Check (C01_transcript_binding :
+  forall (K0 : knowledge) (SK : list N) (ipk : N) (fa : fabric) (r : dy_run),
+  dy_world K0 SK ipk fa r ->
+  forall sb : session,
+  node_wf (dr_a r) ->
+  node_wf (dr_b r) ->
+  attacker_sends K0 r ->
+  initiator_completed r ->
+  responder_completed r sb ->
+  exists (sa : session) (fb : fabric) (q : sigma1) (rpub : term),
+    n_sessions (io_node (run_i3 r)) = n_sessions (dr_a r) ++ [sa] /\
+    parse_sigma1 (dr_m1 r) = Ok q /\
+    get_by_dest_id (n_fabrics (dr_b r)) (g1_random q) (g1_dest q) = Some fb /\
+    get_req (dr_m2 r) 3 KBytes = Ok rpub /\
+    (let m2 := build_sigma2 fb (dr_frb r) (g1_pub q) (msg_term (dr_m1 r)) in
+     let m3 :=
+       initiator_sigma3 fa (dr_fra r) rpub (sigma1_of (dr_a r) (dr_fra r) (dr_fab r) (dr_peer r) fa)
+         (dr_m2 r) in
+     io_msgs (run_i1 r) = [sigma1_of (dr_a r) (dr_fra r) (dr_fab r) (dr_peer r) fa] /\
+     ro_msgs (run_r1 r) = [m2] /\
+     io_msgs (run_i2 r) = [m3] /\
+     msg_term (dr_m1 r) = msg_term (sigma1_of (dr_a r) (dr_fra r) (dr_fab r) (dr_peer r) fa) /\
+     msg_term (dr_m2 r) = msg_term m2 /\
+     get_req (dr_m3 r) 1 KBytes = get_req m3 1 KBytes /\
+     f_ipk fb = TNonce ipk /\
+     s_fab sa = dr_fab r /\
+     s_peer sa = dr_peer r /\
+     get_node_id (f_noc fb) = Some (dr_peer r) /\
+     cats_of (f_noc fb) = Ok (s_cats sa) /\
+     s_fab sb = f_idx fb /\
+     get_node_id (f_noc fa) = Some (s_peer sb) /\
+     cats_of (f_noc fa) = Ok (s_cats sb) /\
+     (s_enc sa = s_dec sb /\ s_dec sa = s_enc sb <-> msg_term (dr_m3 r) = msg_term m3) /\
+     (msg_term (dr_m3 r) <> msg_term m3 -> sigma3_alt m3 (dr_m3 r) = true) /\
+     ~ derivable (know5 K0 r) (s_enc sa) /\
+     ~ derivable (know5 K0 r) (s_dec sa) /\
+     ~ derivable (know5 K0 r) (s_enc sb) /\ ~ derivable (know5 K0 r) (s_dec sb))).
+Check (C01_initiator_only :
+  forall (K0 : knowledge) (SK : list N) (ipk : N) (fa : fabric) (r : dy_run),
+  dy_world K0 SK ipk fa r ->
+  node_wf (dr_a r) ->
+  msg_derivable (know1 K0 r) (dr_m1 r) ->
+  msg_derivable (know2 K0 r) (dr_m2 r) ->
+  initiator_completed r ->
+  exists (sa : session) (fb : fabric) (q : sigma1) (rpub : term),
+    n_sessions (io_node (run_i3 r)) = n_sessions (dr_a r) ++ [sa] /\
+    s_reserved sa = false /\
+    parse_sigma1 (dr_m1 r) = Ok q /\
+    get_by_dest_id (n_fabrics (dr_b r)) (g1_random q) (g1_dest q) = Some fb /\
+    get_req (dr_m2 r) 3 KBytes = Ok rpub /\
+    (let m2 := build_sigma2 fb (dr_frb r) (g1_pub q) (msg_term (dr_m1 r)) in
+     let m3 :=
+       initiator_sigma3 fa (dr_fra r) rpub (sigma1_of (dr_a r) (dr_fra r) (dr_fab r) (dr_peer r) fa)
+         (dr_m2 r) in
+     ro_msgs (run_r1 r) = [m2] /\
+     f_ipk fb = TNonce ipk /\
+     msg_term (dr_m1 r) = msg_term (sigma1_of (dr_a r) (dr_fra r) (dr_fab r) (dr_peer r) fa) /\
+     get_req (dr_m2 r) 1 KBytes = get_req m2 1 KBytes /\
+     get_req (dr_m2 r) 3 KBytes = get_req m2 3 KBytes /\
+     get_req (dr_m2 r) 4 KBytes = get_req m2 4 KBytes /\
+     s_fab sa = dr_fab r /\
+     s_peer sa = dr_peer r /\
+     get_node_id (f_noc fb) = Some (dr_peer r) /\
+     cats_of (f_noc fb) = Ok (s_cats sa) /\
+     s_enc sa =
+     sess_key 0 (TNonce ipk)
+       (h123 (msg_term (sigma1_of (dr_a r) (dr_fra r) (dr_fab r) (dr_peer r) fa)) 
+          (msg_term (dr_m2 r)) (msg_term m3)) (dh (TNonce (fr_eph (dr_fra r))) rpub) /\
+     s_dec sa =
+     sess_key 1 (TNonce ipk)
+       (h123 (msg_term (sigma1_of (dr_a r) (dr_fra r) (dr_fab r) (dr_peer r) fa)) 
+          (msg_term (dr_m2 r)) (msg_term m3)) (dh (TNonce (fr_eph (dr_fra r))) rpub) /\
+     ~ derivable (know5 K0 r) (s_enc sa) /\ ~ derivable (know5 K0 r) (s_dec sa))).
+Check (C01_responder_only :
+  forall (K0 : knowledge) (SK : list N) (ipk : N) (fa : fabric) (r : dy_run),
+  dy_world K0 SK ipk fa r ->
+  forall (sb : session) (q : sigma1) (fb : fabric),
+  node_wf (dr_b r) ->
+  msg_derivable (know1 K0 r) (dr_m1 r) ->
+  msg_derivable (know2 K0 r) (dr_m2 r) ->
+  msg_derivable (know3 K0 r) (dr_m3 r) ->
+  responder_completed r sb ->
+  parse_sigma1 (dr_m1 r) = Ok q ->
+  get_by_dest_id (n_fabrics (dr_b r)) (g1_random q) (g1_dest q) = Some fb ->
+  f_ipk fb = TNonce ipk ->
+  exists (sa' : session) (rpub : term),
+    initiator_full_sound (dr_a r) (dr_fra r) (dr_fab r) (dr_peer r)
+      (sigma1_of (dr_a r) (dr_fra r) (dr_fab r) (dr_peer r) fa) (dr_m2 r) sa' /\
+    get_req (dr_m2 r) 3 KBytes = Ok rpub /\
+    (let m2 := build_sigma2 fb (dr_frb r) (g1_pub q) (msg_term (dr_m1 r)) in
+     let m3 :=
+       initiator_sigma3 fa (dr_fra r) rpub (sigma1_of (dr_a r) (dr_fra r) (dr_fab r) (dr_peer r) fa)
+         (dr_m2 r) in
+     ro_msgs (run_r1 r) = [m2] /\
+     io_msgs (run_i2 r) = [m3] /\
+     msg_term (dr_m1 r) = msg_term (sigma1_of (dr_a r) (dr_fra r) (dr_fab r) (dr_peer r) fa) /\
+     msg_term (dr_m2 r) = msg_term m2 /\
+     get_req (dr_m3 r) 1 KBytes = get_req m3 1 KBytes /\
+     s_fab sb = f_idx fb /\
+     get_node_id (f_noc fa) = Some (s_peer sb) /\
+     cats_of (f_noc fa) = Ok (s_cats sb) /\
+     (s_enc sa' = s_dec sb /\ s_dec sa' = s_enc sb <-> msg_term (dr_m3 r) = msg_term m3) /\
+     (msg_term (dr_m3 r) <> msg_term m3 -> sigma3_alt m3 (dr_m3 r) = true) /\
+     ~ derivable (know5 K0 r) (s_enc sb) /\ ~ derivable (know5 K0 r) (s_dec sb))).
+Check (C01_resume_binding :
+  forall (K0 : knowledge) (SK : list N) (ipk : N) (fa : fabric) (r : dy_run),
+  dy_world K0 SK ipk fa r ->
+  forall (ra : record) (nr : term),
+  node_wf (dr_a r) ->
+  node_wf (dr_b r) ->
+  msg_derivable (know1 K0 r) (dr_m1 r) ->
+  msg_derivable (know2 K0 r) (dr_m2 r) ->
+  io_state (run_i2 r) = IFinishing ra nr ->
+  ro_arm (run_r2 r) = A_R_FIN_OK ->
+  ~ guarded (secret_nonces ipk r) SK (r_secret ra) ->
+  exists (sa sb : session) (q : sigma1) (rb : record),
+    n_sessions (io_node (run_i2 r)) = n_sessions (dr_a r) ++ [sa] /\
+    n_sessions (ro_node (run_r2 r)) = n_sessions (dr_b r) ++ [sb] /\
+    s_reserved sa = false /\
+    s_reserved sb = false /\
+    parse_sigma1 (dr_m1 r) = Ok q /\
+    In rb (n_cache (dr_b r)) /\
+    find_by_peer (n_cache (dr_a r)) (dr_fab r) (dr_peer r) = Some ra /\
+    g1_random q = TNonce (fr_rand (dr_fra r)) /\
+    r_secret rb = r_secret ra /\
+    r_rid rb = r_rid ra /\
+    s_fab sa = r_fab ra /\
+    s_peer sa = r_peer ra /\
+    s_cats sa = r_cats ra /\
+    s_fab sb = r_fab rb /\
+    s_peer sb = r_peer rb /\
+    s_cats sb = r_cats rb /\
+    s_enc sa = s_dec sb /\
+    s_dec sa = s_enc sb /\ ~ derivable (know5 K0 r) (s_enc sa) /\ ~ derivable (know5 K0 r) (s_dec sa)).
 Check (C01_known_class_inhabited :
   let p := handshake append_to_sigma3 w_a w_b w_fra w_frb 1 8738 in
   match outcome p, p_wire p with
